@@ -2124,6 +2124,7 @@ def extra_phase(tier, seed, total, workers, scratch):
         core.DIGEST_SAMPLE, core.SAMPLE_INDICES = saved
     for idx, v in agg.violations:
         v["phase"] = "enum"
+    agg.harness = [(h[0], h[1], "enum") for h in agg.harness]
     total.merge(agg)
     info = {"systematic_prefix": {
         "what": f"every call sequence of length <= {length} over {ENUM_ALPHABET} x fault kinds {ENUM_FAULTS} x wrapper kinds {ENUM_KINDS}",
@@ -2139,6 +2140,7 @@ def extra_phase(tier, seed, total, workers, scratch):
         core.DIGEST_SAMPLE, core.SAMPLE_INDICES = saved
     for idx, v in ragg.violations:
         v["phase"] = "real"
+    ragg.harness = [(h[0], h[1], "real") for h in ragg.harness]
     real_stats = {k: v for k, v in ragg.stats.items() if k.startswith(("fault:", "sim:"))}
     # keep the real-process counters apart from the simulated ones
     ragg.stats = type(ragg.stats)({("real-process:" + k if not k.startswith("op:") else k): v for k, v in ragg.stats.items()})
